@@ -158,8 +158,7 @@ C17_Return(l) ==
             /\ l.cm = eps[FirstGood].cm                         \* one comment per certificate, parallel
 C17_Backoff(b) ==
   /\ ~b.min.neg                                                 \* 0 <= every delay
-  /\ VLe(b.max, b.bound)                                        \* every delay <= max * (1 + jitter)
-  /\ b.att0 => (b.min = b.base /\ b.max = b.base)               \* attempt 0: the base delay
+  /\ VLe(b.max, b.bound)                                        \* every delay <= max * (1 + jitter), attempt 0 included
 C17_Step ==
   /\ (last'.op = "contact")   => C17_Contact(last')
   /\ (last'.op = "return")    => C17_Return(last')
@@ -178,7 +177,12 @@ C18_Step ==
   /\ (last'.op = "contact") => C18_Contact(last')
   /\ (last'.op = "return")  => C17_Return(last')
 
+\* strict conformance with the design beyond what the statements demand (reported as SPEC-DRIFT, never as a violation):
+\* the design returns exactly the base delay for attempt 0
+Strict_Step == (last'.op = "backoff" /\ last'.bo.att0) => (last'.bo.min = last'.bo.base /\ last'.bo.max = last'.bo.base)
+
 P_C17 == [][C17_Step]_vars
+P_Strict == [][Strict_Step]_vars
 P_C18 == [][C18_Step]_vars
 
 ---------------------------------------------------------------------------
